@@ -71,6 +71,12 @@ def gen(rnd, relative_style):
     for f in sorted(spec["files"]):
         if f.endswith(".py") and rnd.random() < 0.25:
             spec["files"][f] = "from . import not_a_module_name\n" + spec["files"][f]
+        if f.endswith(".py") and f.count("/") >= 1 and rnd.random() < 0.3:
+            # a NAME imported from an ancestor package (from proj import VERSION): an import of the ancestor
+            anc = trees.mod_of("proj", f).split(".")[:-1]
+            k = rnd.randint(1, len(anc))
+            stmt = rnd.choice([f"from {'.'.join(anc[:k])} import SOME_CONSTANT", "from " + "." * (len(anc) - k + 1) + " import SOME_CONSTANT"])
+            spec["files"][f] = stmt + "\n" + spec["files"][f]
     if rnd.random() < 0.12:
         # a package reachable under a second name through a directory symlink (never shallower than its target, so the
         # relative imports of the linked files stay inside the root): one module per directory ENTRY
@@ -148,6 +154,9 @@ def one_tree(tspec, relative_style, acc, rnd, only_mp=None, force_excl=None):
                 en, ei = restricted(full.nodes, full.imps, sub)
                 gn, gi = restricted(se.nodes, se.imps, sub)
                 acc.count("subscan_equivalences")
+                leaving = sorted((a, b) for a, b in se.imps if not ((a == sub or is_ancestor(sub, a)) and (b == sub or is_ancestor(sub, b))))
+                if leaving:
+                    HUB.violation("C04", "subscan-import-leaves-the-subtree", f"scan(module_path={mp}) with external libraries excluded contains imports that do not stay inside module_path", {"mp": mp, "imports": leaving[:10]})
                 if se.nodes != en or gi != ei:
                     HUB.violation(
                         "C04",
@@ -171,6 +180,27 @@ def one_tree(tspec, relative_style, acc, rnd, only_mp=None, force_excl=None):
         acc.count("entry_point_equivalences")
         if so.state != full.state:
             HUB.violation("C04", "module-object-entry-point-differs", "module-object entry point built a different architecture for the root", {"nodes_diff": sorted(so.nodes ^ full.nodes), "imports_diff": sorted(so.imps ^ full.imps)})
+        # the same tree reached through a directory symlink with another name: modules are named from the root_path that was
+        # GIVEN (the link's name), by both entry points alike
+        if rnd.random() < 0.3 or only_mp is not None:
+            link = os.path.join(os.path.dirname(root), "alias_root")
+            if not os.path.lexists(link):
+                os.symlink(root, link, target_is_directory=True)
+            mp_l = rnd.choice(dirs) if only_mp is None else only_mp
+            mp_link = os.path.join(link, mp_l) if mp_l else link
+            c6 = dict(case, mp=mp_l, via="symlinked root")
+            HUB.case = c6
+            get_evaluable_architecture(link, mp_link)
+            sp = HUB.scan_events[-1]
+            get_evaluable_architecture_for_module_objects(_fake_module(link), _fake_module(mp_link))
+            so = HUB.scan_events[-1]
+            acc.evaluated(2)
+            acc.count("symlinked_root_scans")
+            bad = sorted(n for n in sp.nodes if n != "alias_root" and not n.startswith("alias_root."))
+            if bad:
+                HUB.violation("C04", "modules-not-named-from-the-given-root", "modules of a scan whose root_path is a directory symlink are not named from that root_path", {"mp": mp_l, "modules": bad[:8]})
+            if so.state != sp.state:
+                HUB.violation("C04", "module-object-entry-point-differs", "module-object entry point built a different architecture than the path entry point (root reached through a symlink)", {"mp": mp_l, "nodes_diff": sorted(so.nodes ^ sp.nodes)[:10], "imports_diff": sorted(so.imps ^ sp.imps)[:10]})
         # the module set must not depend on whether external libraries are kept
         if rnd.random() < 0.5 or only_mp is not None:
             c3 = dict(case, include=True)
@@ -236,7 +266,7 @@ def floors(acc, tier):
     why = []
     if acc.counters["scans_judged"] < 200:
         why.append(f"only {acc.counters['scans_judged']} scans judged")
-    for c, n in (("subscan_equivalences", 100), ("entry_point_equivalences", 100), ("prefix_sibling_trees", 10), ("via_prefix_statements", 10), ("include_mode_scans", 30), ("sibling_directory_exclusion_scans", 10), ("root_named_package_scans", 20), ("trees_with_symlinked_package", 10)):
+    for c, n in (("subscan_equivalences", 100), ("entry_point_equivalences", 100), ("prefix_sibling_trees", 10), ("via_prefix_statements", 10), ("include_mode_scans", 30), ("sibling_directory_exclusion_scans", 10), ("root_named_package_scans", 20), ("trees_with_symlinked_package", 10), ("symlinked_root_scans", 30)):
         if acc.counters[c] < n:
             why.append(f"{c}: only {acc.counters[c]}")
     if acc.counters["scan_model_errors"]:
